@@ -28,4 +28,4 @@ r = subprocess.run(f'. /verif/env.sh; /verif/bin/verifcheck -prop {prop} -tier q
 os.unlink(t.name)
 for l in (r.stdout + r.stderr).splitlines():
     if l.strip().startswith(('violated', 'UNDECIDED', 'VACUOUS', 'CHECK-ERROR', 'property=')) or 'rejected' in l or 'type errors' in l or '.go:' in l and 'CHECK' in r.stdout:
-        print(l.strip()[:330])
+        print(l.strip()[:1800])
